@@ -23,6 +23,42 @@ theorem proj_passthrough (d : Str) (h : d.contains '|' = true ∨ containsStr (S
   · simp only [parseProj, h, Bool.true_or, if_true]
   · simp only [parseProj, h, Bool.not_false, Bool.or_true, if_true]
 
+/-- a character that is not white space survives trimming -/
+theorem mem_dropWhile_of_false {β : Type} (q : β → Bool) (l : List β) (c : β) (hc : c ∈ l) (hq : q c = false) :
+    c ∈ l.dropWhile q := by
+  induction l with
+  | nil => cases hc
+  | cons a r ih =>
+    by_cases ha : q a = true
+    · rw [List.dropWhile_cons_of_pos ha]
+      rcases List.mem_cons.mp hc with e | hm
+      · rw [e, ha] at hq; cases hq
+      · exact ih hm
+    · have ha' : q a = false := by simpa using ha
+      rw [List.dropWhile_cons_of_neg (by simp [ha'])]
+      exact hc
+
+theorem mem_trim_of_not_ws (s : Str) (c : Char) (hc : c ∈ s) (hw : isWs c = false) : c ∈ trim s := by
+  unfold trim trimEnd trimStart
+  rw [List.mem_reverse]
+  apply mem_dropWhile_of_false _ _ _ _ hw
+  rw [List.mem_reverse]
+  exact mem_dropWhile_of_false _ _ _ hc hw
+
+/-- the separator of a pipeline of two or more steps is in its text -/
+theorem bar_mem_join (a b : Str) (rest : List Str) : '|' ∈ join (S " | ") (a :: b :: rest) := by
+  show '|' ∈ a ++ S " | " ++ join (S " | ") (b :: rest)
+  simp [S]
+
+/-- **the translation is idempotent on what it delivers for pipelines**: the text of two or more steps joined by
+` | ` (which is what `parse_proj` returns for a PROJ pipeline of two or more steps) passes through unchanged -/
+theorem translated_pipeline_is_fixed (a b : Str) (rest : List Str) :
+    parseProj (trim (join (S " | ") (a :: b :: rest))) = .ok (trim (join (S " | ") (a :: b :: rest))) := by
+  apply proj_passthrough
+  left
+  have := mem_trim_of_not_ws _ '|' (bar_mem_join a b rest) (by decide)
+  simpa [List.contains_iff_mem] using this
+
 /-- **init clauses are refused**, wherever they stand in their step -/
 theorem init_refused (acc : Acc) (i : Nat) (step : Str)
     (h : (splitWs step).any (startsWith (S "init=")) = true) :
